@@ -27,13 +27,13 @@ import (
 // which dependencies each finder reports at each location.
 
 type WPkg struct {
-	Addr    string  `json:"addr"`              // remote package address
-	Content string  `json:"content,omitempty"` // content class; packages with the same class have identical files ("" = Addr)
-	Locs    []string `json:"locs,omitempty"`   // module locations that exist ("" = root always exists)
-	Files   []TNode `json:"files,omitempty"`   // extra nodes, paths relative to the package root
-	MetaID  string  `json:"meta_id,omitempty"`
-	MetaMsg string  `json:"meta_msg,omitempty"`
-	NilMeta bool    `json:"nil_meta,omitempty"`
+	Addr    string   `json:"addr"`              // remote package address
+	Content string   `json:"content,omitempty"` // content class; packages with the same class have identical files ("" = Addr)
+	Locs    []string `json:"locs,omitempty"`    // module locations that exist ("" = root always exists)
+	Files   []TNode  `json:"files,omitempty"`   // extra nodes, paths relative to the package root
+	MetaID  string   `json:"meta_id,omitempty"`
+	MetaMsg string   `json:"meta_msg,omitempty"`
+	NilMeta bool     `json:"nil_meta,omitempty"`
 }
 
 type WVer struct {
@@ -486,25 +486,25 @@ type PkgNode struct {
 }
 
 type BuildOut struct {
-	SetupErr   string      `json:"setup_err,omitempty"`
-	Adds       []AddOut    `json:"adds"`
-	CloseErr   string      `json:"close_err,omitempty"`
-	ClosePanic string      `json:"close_panic,omitempty"`
-	Bundle     *BundleOut  `json:"bundle,omitempty"`
-	Reopened   *BundleOut  `json:"reopened,omitempty"`
-	Extracted  *BundleOut  `json:"extracted,omitempty"`
-	ReopenErr  string      `json:"reopen_err,omitempty"`
-	ExtractErr string      `json:"extract_err,omitempty"`
-	Calls      []string    `json:"calls"`
-	Trace      []string    `json:"trace,omitempty"`
-	TraceDiags []DiagOut   `json:"trace_diags,omitempty"`
-	Points     []Point     `json:"points,omitempty"`
-	BadPick    string      `json:"bad_pick,omitempty"`
-	Outside    []string    `json:"outside,omitempty"`    // changes outside the target dir
-	CrashOpens []string    `json:"crash_opens,omitempty"` // boundaries at which a copy of the target opened as a bundle
-	Boundaries int         `json:"boundaries,omitempty"`
-	PostUse    []string    `json:"post_use,omitempty"` // outcome of using the builder after a failed build
-	TmpLeft    []string    `json:"tmp_left,omitempty"`
+	SetupErr   string                         `json:"setup_err,omitempty"`
+	Adds       []AddOut                       `json:"adds"`
+	CloseErr   string                         `json:"close_err,omitempty"`
+	ClosePanic string                         `json:"close_panic,omitempty"`
+	Bundle     *BundleOut                     `json:"bundle,omitempty"`
+	Reopened   *BundleOut                     `json:"reopened,omitempty"`
+	Extracted  *BundleOut                     `json:"extracted,omitempty"`
+	ReopenErr  string                         `json:"reopen_err,omitempty"`
+	ExtractErr string                         `json:"extract_err,omitempty"`
+	Calls      []string                       `json:"calls"`
+	Trace      []string                       `json:"trace,omitempty"`
+	TraceDiags []DiagOut                      `json:"trace_diags,omitempty"`
+	Points     []Point                        `json:"points,omitempty"`
+	BadPick    string                         `json:"bad_pick,omitempty"`
+	Outside    []string                       `json:"outside,omitempty"`     // changes outside the target dir
+	CrashOpens []string                       `json:"crash_opens,omitempty"` // boundaries at which a copy of the target opened as a bundle
+	Boundaries int                            `json:"boundaries,omitempty"`
+	PostUse    []string                       `json:"post_use,omitempty"` // outcome of using the builder after a failed build
+	TmpLeft    []string                       `json:"tmp_left,omitempty"`
 	PkgDirs    map[string]map[string]fsx.Node `json:"-"`
 }
 
